@@ -1,4 +1,4 @@
-import OW.Proofs.WrapperNdTables
+import OW.Proofs.WrapperNdTablesRun
 /-!
 C04 (n-d level, TABLE parameters) — `wrapperNd_refines` of `OW/Props/C04Nd.lean` extended from scalar-parameter specs to
 specs with one-dimensional table parameters (`ParamSpec` entries `some k`: a table whose per-cell length is the value of
@@ -9,7 +9,8 @@ dimension parameter number `k`, occupying `maxLen = int(max over sets of that pa
 * `cellParams_tables` — the list-level decoded column of cell `i` in closed form (`entries`);
 * `param_decoding_tables` — the view-level decoding (`scalarParam`, `tableParam` + `readTable`) yields that column;
 * `wrapperNd_refines_tables` — one cell step through the template's views, table parameters included, is the list-level
-  `cellStep`.
+  `cellStep`;
+* `runNd_refines_tables` — the whole sequential `Run` through the views (`runNdT`) is the list-level `runCells`.
 
 The view-level goroutine body with table parameters is `OW.Sim.WrapperNd.cellStepNdT` (`OW/Sim/WrapperNdTables.lean`,
 core Lean); on all-scalar specs it is `cellStepNd` (`cellStepNdT_scalar`). Helper lemmas: `OW/Proofs/WrapperNdTables.lean`.
@@ -60,10 +61,8 @@ theorem cellParams_tables (spec : ParamSpec) (lay : List (Nat × Nat)) (params :
     (hT : ∀ (j k row sz : Nat), spec[j]? = some (some k) → lay[j]? = some (row, sz) →
       (ownLenZ params i (rowOf lay k)).toNat ≤ sz ∧
       ∀ r, r < (ownLenZ params i (rowOf lay k)).toNat → (Props.C04.pick params i (row + r)).isSome) :
-    cellParams spec lay params i = .ok ((spec.zip lay).flatMap (entries params lay i)) := by
-  unfold cellParams
-  rw [cellParams_go_tables params i spec lay wf hS hT (spec.zip lay) [] [] [] rfl rfl (fun k hk => by simp at hk)]
-  simp
+    cellParams spec lay params i = .ok ((spec.zip lay).flatMap (entries params lay i)) :=
+  cellParams_tables_eq spec lay params i wf hS hT
 
 /-! ### (iii) the view level -/
 
@@ -84,18 +83,8 @@ theorem param_decoding_tables {h : Heap α} {parameters : Arr} {rows nSets pb i 
     decodeNd h parameters (i : Int) (spec.zip lay) [] [] =
         .ok ((spec.zip lay).flatMap (entries (mat pst pb rows nSets) lay i)) ∧
     cellParams spec lay (mat pst pb rows nSets) i =
-        .ok ((spec.zip lay).flatMap (entries (mat pst pb rows nSets) lay i)) := by
-  constructor
-  · rw [decodeNd_go_refines rp hpb hp spec lay wf hS hT (spec.zip lay) [] [] [] rfl rfl (fun k hk => by simp at hk)]
-    simp
-  · apply cellParams_tables spec lay _ i wf
-    · intro j row sz hsp hly
-      obtain ⟨y, _, hy⟩ := scalar_pick (i := i) rp hpb hp (hS j row sz hsp hly)
-      rw [hy]; rfl
-    · intro j k row sz hsp hly
-      obtain ⟨hsz, hfit, hown⟩ := hT j k row sz hsp hly
-      obtain ⟨_, _, _, hpk⟩ := table_pick (i := i) (ownLenZ (mat pst pb rows nSets) i (rowOf lay k)) rp hpb hp hsz hfit hown
-      exact ⟨hown, hpk⟩
+        .ok ((spec.zip lay).flatMap (entries (mat pst pb rows nSets) lay i)) :=
+  param_decoding_tables_eq rp hpb hp spec lay wf hS hT
 
 /-- **wrapperNd_refines_tables.** The hypotheses of `wrapperNd_refines` (root arrays `parameters [rows, nSets]`,
 `inputs [nIn, nI, T]`, `states [N, nS]`, `outputs [M, nO, T']`, `T ≤ T'`, states and outputs in different storages, a
@@ -134,9 +123,8 @@ theorem wrapperNd_refines_tables (km : KModel α) {h : Heap α} {parameters inpu
         (∀ o t, o < nO → t < T' → cell h' outputs.sid (ob + (i * nO + o) * T' + t) = (o'[o]?).bind (·[t]?)) ∧
         (∀ u q, ¬ (u = states.sid ∧ ∃ s, s < nS ∧ q = sb + i * nS + s) →
                 ¬ (u = outputs.sid ∧ ∃ o t, o < nO ∧ t < T' ∧ q = ob + (i * nO + o) * T' + t) →
-                cell h' u q = cell h u q)) := by
-  obtain ⟨hdec, hcp⟩ := param_decoding_tables (i := i) rp hpb hp spec lay wf hSc hTb
-  exact cellStepNdG_refines km ri rs ro hib hsb hob hi hs ho hso hiN hiM hT hrd hK spec lay _ _ _ hdec hcp
+                cell h' u q = cell h u q)) :=
+  cellStepNdT_refines km rp ri rs ro hpb hib hsb hob hp hi hs ho hso hiN hiM hT hrd hK spec lay wf hSc hTb
 
 /-- **wrapperNd_refines_tables_layout.** `wrapperNd_refines_tables` for the rows the list-level `layout` COMPUTES from the
 parameter denotation (`layout_tables`: they are the template's `tplRows`) — the end-to-end form: `layout` succeeds with
@@ -212,6 +200,45 @@ theorem wrapperNd_refines_tables_layout (km : KModel α) {h : Heap α} {paramete
     obtain ⟨e1, e2⟩ := h1
     subst e1; subst e2
     exact ⟨d1, h2, d2⟩
+
+/-- **runNd_refines_tables** (`runNd_refines` for specs with table parameters; the cells executed one after the other —
+C05 is about why the order does not matter). Root arrays `parameters [rows, nSets]`, `inputs [nIn, nI, T]`,
+`states [N, nS]`, `outputs [M, nO, T']` with `N ≤ M`, `T ≤ T'`, in pairwise different storages (parameters and inputs may
+share one); a well-formed spec laid out in rows `lay` inside the parameter array with `ownLen_i ≤ maxLen` for every cell
+`i < N` and every table; a kernel whose results fit the arrays. If the list-level vectorised run `runCells` on the
+row-major denotations of the storages succeeds with `(ss, os)`, then `Run` through the template's views (`runNdT`: the
+preamble, then `cellStepNdT` for `i = 0 … N-1`) does not panic, keeps the heap's shape, and afterwards the states storage
+denotes `ss`, the outputs storage denotes `os` (all `M` rows and `T'` timesteps), every other storage is the same list as
+before, and the states and outputs storages are unchanged outside the windows of the two arrays. -/
+theorem runNd_refines_tables (km : KModel α) {h : Heap α} {parameters inputs states outputs : Arr}
+    {rows nSets nIn nI T N nS M nO T' pb ib sb ob : Nat} {pst ist sst ost : List α}
+    (rp : RootOn h parameters [(rows : Int), (nSets : Int)])
+    (ri : RootOn h inputs [(nIn : Int), (nI : Int), (T : Int)])
+    (rs : RootOn h states [(N : Int), (nS : Int)])
+    (ro : RootOn h outputs [(M : Int), (nO : Int), (T' : Int)])
+    (hpb : parameters.base = (pb : Int)) (hib : inputs.base = (ib : Int)) (hsb : states.base = (sb : Int))
+    (hob : outputs.base = (ob : Int))
+    (hp : h[parameters.sid]? = some pst) (hi : h[inputs.sid]? = some ist)
+    (hs : h[states.sid]? = some sst) (ho : h[outputs.sid]? = some ost)
+    (hso : states.sid ≠ outputs.sid) (hps : parameters.sid ≠ states.sid) (hpo : parameters.sid ≠ outputs.sid)
+    (his : inputs.sid ≠ states.sid) (hio : inputs.sid ≠ outputs.sid)
+    (spec : ParamSpec) (lay : List (Nat × Nat)) (wf : SpecWF spec)
+    (hSc : ∀ (j row sz : Nat), spec[j]? = some none → lay[j]? = some (row, sz) → row < rows)
+    (hTb : ∀ i, i < N → ∀ (j k row sz : Nat), spec[j]? = some (some k) → lay[j]? = some (row, sz) →
+      1 ≤ sz ∧ row + sz ≤ rows ∧ (ownLenZ (mat pst pb rows nSets) i (rowOf lay k)).toNat ≤ sz)
+    (hNM : N ≤ M) (hT : T ≤ T')
+    (hK : ∀ p ins st r, km.run p ins st = .ok r →
+      r.outputs.length ≤ nO ∧ (∀ ser ∈ r.outputs, ser.length ≤ T) ∧ r.states.length ≤ nS)
+    {ss : List (List α)} {os : List (List (List α))}
+    (hrun : runCells km spec lay (mat pst pb rows nSets) (cube ist ib nIn nI T) 0 (mat sst sb N nS)
+      (cube ost ob M nO T') = .ok (ss, os)) :
+    ∃ h' sst' ost', runNdT km.run spec lay nI h parameters inputs states outputs = .ok h' ∧ SameShape h h' ∧
+      h'[states.sid]? = some sst' ∧ h'[outputs.sid]? = some ost' ∧
+      (∀ u, u ≠ states.sid → u ≠ outputs.sid → h'[u]? = h[u]?) ∧
+      mat sst' sb N nS = ss ∧ cube ost' ob M nO T' = os ∧
+      (∀ q, (q < sb ∨ sb + N * nS ≤ q) → sst'[q]? = sst[q]?) ∧
+      (∀ q, (q < ob ∨ ob + N * (nO * T') ≤ q) → ost'[q]? = ost[q]?) :=
+  runNdT_eq_runCells km rp ri rs ro hpb hib hsb hob hp hi hs ho hso hps hpo his hio spec lay wf hSc hTb hNM hT hK hrun
 
 /-! ### the new view-level step generalises the frozen one -/
 
@@ -389,6 +416,40 @@ example :=
     (M := 4) (nO := 1) (T' := 5) (i := 0) (pb := 0) (ib := 0) (sb := 0) (ob := 0)
     (parameters := pA) (inputs := iA) (states := sA) (outputs := oA) rp ri rs ro rfl rfl rfl rfl rfl rfl rfl rfl
     (by decide) (by decide) (by decide) (by decide) (runDims_eq rfl rfl rfl) toyFits spec lay specWF hSc (hTb 0 (by omega))
+
+-- the whole `Run` (3 cells; 2 parameter sets and 2 input blocks reused cyclically: cells 0 and 2 use set 0 / block 0 with
+-- column sum 332, cell 1 set 1 / block 1 with column sum 669) through the views, evaluated; and the list level
+example : runNdT toyKm.run spec lay 2 heap pA iA sA oA =
+    .ok [heap[0], heap[1], [1, 2, 3, 4, 5, 6],
+      [1332, 1333, 1334, -1, -1,  1675, 1676, 1677, -1, -1,  1332, 1333, 1334, -1, -1,  -1, -1, -1, -1, -1]] := by decide
+
+theorem toy_runCells : runCells toyKm spec lay (mat pst 0 7 2) (cube heap[1] 0 2 2 3) 0 (mat heap[2] 0 3 2)
+    (cube heap[3] 0 4 1 5) =
+    .ok ([[1, 2], [3, 4], [5, 6]],
+      [[[1332, 1333, 1334, -1, -1]], [[1675, 1676, 1677, -1, -1]], [[1332, 1333, 1334, -1, -1]], [[-1, -1, -1, -1, -1]]]) := by
+  decide
+
+-- `runNd_refines_tables` instantiated: the list-level run succeeds, so the theorem applies
+example :=
+  runNd_refines_tables toyKm (h := heap) (rows := 7) (nSets := 2) (nIn := 2) (nI := 2) (T := 3) (N := 3) (nS := 2)
+    (M := 4) (nO := 1) (T' := 5) (pb := 0) (ib := 0) (sb := 0) (ob := 0)
+    (parameters := pA) (inputs := iA) (states := sA) (outputs := oA) rp ri rs ro rfl rfl rfl rfl rfl rfl rfl rfl
+    (by decide) (by decide) (by decide) (by decide) (by decide) spec lay specWF hSc
+    (fun i hi => by
+      match i, hi with
+      | 0, _ => exact hTb 0 (by omega)
+      | 1, _ => exact hTb 1 (by omega)
+      | 2, _ =>
+        intro j k row sz h1 h2
+        have hown : (ownLenZ (mat pst 0 7 2) 2 (rowOf lay 0)).toNat ≤ 3 := by decide
+        match j, h1, h2 with
+        | 0, h1, _ => simp [spec] at h1
+        | 1, h1, h2 =>
+          simp [spec] at h1; simp [lay] at h2; subst h1; obtain ⟨rfl, rfl⟩ := h2; exact ⟨by omega, by omega, hown⟩
+        | 2, h1, h2 =>
+          simp [spec] at h1; simp [lay] at h2; subst h1; obtain ⟨rfl, rfl⟩ := h2; exact ⟨by omega, by omega, hown⟩
+        | n + 3, h1, _ => simp [spec] at h1)
+    (by decide) (by decide) toyFits toy_runCells
 
 /-- outside the hypothesis `ownLen_i ≤ maxLen` (the table laid out in FEWER rows than the cell's own length: `size = 2`,
 own length 3) both levels fail alike: the list level by its explicit check, the view level because the `ApplyParameters`
